@@ -966,5 +966,15 @@ def run(ck):
         c07_5(ck, prog)
         c07_6(ck, prog)
         c07_9(ck, prog)
+        r = ck.rule('C07.10', 'match-rule keys and values are recognised by whole-string equality (shared with C04.6): '
+                    '_dbus_string_equal_c_str / _dbus_string_equal answer TRUE only when every byte was compared and both '
+                    'strings are exhausted', 'TS', breaks='a truncated key (arg0namespac) is accepted and stored as a live '
+                    'rule: a connection all of whose rules should have been refused receives broadcasts', floor=2)
+        lib.whole_string_equality(prog, r)
+        from rules.C14 import c14_13
+        lib.shared_rule(ck, prog, 'C07.11', 'the hash tables the rules are kept in (rules_by_iface) stay consistent when '
+                        'growing them runs out of memory (shared with C14.13)', 'TS', 'after one failed growth the table '
+                        'believes in a bucket array it never got: the disconnect sweep walks beyond the array and the '
+                        'bus crashes', 3, c14_13)
         from rules.C06 import c06_12
         c06_12(ck, prog, 'C07.8')
